@@ -30,6 +30,9 @@ TRUSTED = [
     "abstract decode layer: json.loads / cattrs structure_from_dict / unstructure_to_dict / httpx text+bytes+line decoding are "
     "NOT modelled (C16/C14/C18 cover them); the oracle exercises them on the conforming bodies of this run",
     "reading the decode expression off the generated source with regular expressions (a reader bug shows as a mismatch)",
+    "translator harness/tables_C05.py (ast, fail-closed) for the builtin/construct/not-a-model name tables, primitive alias types, "
+    "binary media types and prefixes, STREAM_FORMATS, the text/json/event-stream literals; the schema registry handed to the model is "
+    "read from the real parser's IR on every run",
     "domain: parameter-less GET operations in one tag; component schemas Item, Cat, Color, Pet, Items, Names, Name, When, Count; "
     "rendered types as listed in TYPE_POOL; ASCII type strings; event streams are sent in 11 equally valid wire renderings "
     "(space/no space after the colon, LF/CRLF, multi-line data, comments and event/id/retry fields, missing final blank line or "
@@ -48,18 +51,25 @@ COMPONENTS = {
     "When": {"type": "string", "format": "date-time"},
     "Count": {"type": "integer"},
 }
-# what the handler generator's helpers read from self.schemas[name]: (named, type, has properties, has enum, items (name, type))
-REGISTRY = [
-    ("Item", (True, "object", True, False, None)),
-    ("Cat", (True, "object", True, False, None)),
-    ("Color", (True, "string", False, True, None)),
-    ("Pet", (True, None, False, False, None)),
-    ("Items", (True, "array", False, False, ("Item", "object"))),
-    ("Names", (True, "array", False, False, (None, "string"))),
-    ("Name", (True, "string", False, False, None)),
-    ("When", (True, "string", False, False, None)),
-    ("Count", (True, "integer", False, False, None)),
-]
+# what the handler generator's helpers read from self.schemas[name]: (named, type, has properties, has enum, items (name, type)).
+# Computed from the REAL parser's IR of the component schemas on every run (registry_from_ir), never hand-maintained.
+REGISTRY: list = []
+
+
+def registry_from_ir() -> list:
+    from pyopenapi_gen.core.loader.loader import load_ir_from_spec
+    ir = load_ir_from_spec(build_document([[RESP("200", e_json(k=0))]]))
+    reg = []
+    for n in COMPONENTS:
+        sc = ir.schemas[n]
+        it = getattr(sc, "items", None)
+        items = None if not it else ((it.name if getattr(it, "name", None) else None),
+                                     (str(it.type) if hasattr(it, "type") else None))
+        reg.append((n, (bool(getattr(sc, "name", None)), getattr(sc, "type", None), bool(getattr(sc, "properties", None)),
+                        bool(getattr(sc, "enum", None)), items)))
+    return reg
+
+
 ITEM, ITEM2, CAT = {"id": 1, "name": "n"}, {"id": 2, "name": "m"}, {"meow": True}
 
 
@@ -814,6 +824,8 @@ def main(chk: Check, replay: dict | None = None) -> int:
         return 0
     chk.prove()
     rng = chk.rng
+    REGISTRY[:] = registry_from_ir()
+    chk.cov["registry_from_ir"] = [[n, list(i[:4]), list(i[4]) if i[4] else None] for n, i in REGISTRY]
     mods = [c["input"]["module"] for c in load_corpus("C05")] + fixed_modules()
     mods += [gen_module(rng) for _ in range(300 if chk.thorough else 90)]
     cases = run_modules(mods)
